@@ -117,10 +117,17 @@ fn err_class(e: &XlsError) -> String {
 }
 
 /// the public observation of a file in the model's vocabulary
-pub fn observe(file: &[u8], book: &Book) -> Value {
+pub fn observe(file: &[u8], book: &Book) -> Value { observe_forced(file, book, 0) }
+/// `force` = XlsOptions::force_codepage (0: not set)
+pub fn observe_forced(file: &[u8], book: &Book, force: u16) -> Value {
     let nums = numeric_cells(book);
     let r = catch(|| -> Result<Value, String> {
-        let mut wb: Xls<_> = match Xls::new(Cursor::new(file.to_vec())) {
+        let opened = if force == 0 { Xls::new(Cursor::new(file.to_vec())) } else {
+            let mut o = calamine::XlsOptions::default();
+            o.force_codepage = Some(force);
+            Xls::new_with_options(Cursor::new(file.to_vec()), o)
+        };
+        let mut wb: Xls<_> = match opened {
             Ok(w) => w,
             Err(e) => return Ok(json!({"err": err_class(&e), "sheets": [], "defs": []})),
         };
@@ -379,7 +386,14 @@ pub fn drive(args: &Args) -> i32 {
             "b8" => [0, 1200, 1200, 1252, 1251, 1250, 866, 10000, 932, 936][rng.gen_range(0..10)],
             _ => [1252, 1251, 1250, 866, 10000, 932, 936][rng.gen_range(0..7)],
         };
-        let highs = if lay == "b8" { uni_highs() } else { page_highs(cp) };
+        // XlsOptions::force_codepage: the workbook says page `cp` (or nothing), the user says `force`; the text is
+        // written with bytes that have a reading in every single-byte page of the tables (ASCII and 0xE9) and MEANS
+        // what the forced page says
+        let force: u16 = if lay != "b8" && cp != 932 && cp != 936 && rng.gen_bool(0.25) { [1252, 1251, 1250, 866, 10000][rng.gen_range(0..5)] } else { 0 };
+        let highs = if force != 0 {
+            let u = encoding_of(force as u64).unwrap().decode_without_bom_handling(&[0xE9]).0.chars().next().unwrap() as u32;
+            vec![Ch { u, b: vec![0xE9] }]
+        } else if lay == "b8" { uni_highs() } else { page_highs(cp) };
         let p_high = [0.0, 0.15, 0.5][rng.gen_range(0..3)];
         let nsheets = rng.gen_range(1..5usize);
         let mut sheets = Vec::new();
@@ -438,9 +452,9 @@ pub fn drive(args: &Args) -> i32 {
         };
         let (file, files) = build_file(&book, &forms);
         let ideal = ideal_obs(&book);
-        let obs = observe(&file, &book);
+        let obs = observe_forced(&file, &book, force);
         if obs == ideal { ideal_n += 1 } else { other_n += 1 }
-        writeln!(out, "{}", json!({"e": "book", "run": run, "lay": lay, "cp": cp, "files": files, "ideal": ideal, "obs": obs})).unwrap();
+        writeln!(out, "{}", json!({"e": "book", "run": run, "lay": lay, "cp": cp, "force": force, "files": files, "ideal": ideal, "obs": obs})).unwrap();
     }
     if let Some(p) = args.get("report") {
         std::fs::write(p, json!({"books": n, "read_as_ideal": ideal_n, "read_otherwise": other_n}).to_string()).unwrap();
